@@ -13,7 +13,16 @@ on the pool as it looks at the time of the call.
 
 The request body: with more than one host and try_duration ≠ 0 the body is buffered and rewound
 before every attempt (`newBufferedBody`, `rewind`); otherwise the original reader is handed to
-every attempt, so what an attempt can read is what the previous ones left.
+every attempt, so what an attempt can read is what the previous ones left.  "More than one host"
+is `GetHostCount() = len(u.Hosts)`: the size of the configured pool, whatever state its backends
+are in when the request arrives.
+
+Backends need not be in rotation when the request arrives: a host starts unhealthy, at its
+connection cap or with failures already recorded (`fails`; these do not expire while the request is
+served), and the environment may change the state of any backend while the request is served:
+an `Event` fires when the attempt with its number starts (attempts are counted over all backends)
+and replaces the health flag, the in-flight count and the recorded failures of one backend —
+a backend coming back (or going away) during the request.
 
 CORE LEAN ONLY: this file is linked into the model driver.
 -/
@@ -31,11 +40,33 @@ inductive Outcome where
   | tooLarge
 deriving Repr, DecidableEq
 
+/-- the state of a backend that `Down`/`Full` look at, apart from the failures recorded by this request -/
+structure HostState where
+  /-- `Unhealthy` flag (health checks) -/
+  unhealthy : Bool
+  /-- `Conns` of other requests -/
+  conns : Nat
+  /-- `Fails` recorded by other requests, not expiring while this one is served -/
+  fails : Nat
+deriving Repr, DecidableEq
+
 structure HostCfg where
   unhealthy : Bool
   conns : Nat
   /-- outcomes of the successive attempts on this host; the last one repeats; empty = always ok -/
   script : List Outcome
+  /-- failures already recorded when the request arrives -/
+  fails : Nat
+deriving Repr, DecidableEq
+
+/-- the state of the backend when the request arrives -/
+def HostCfg.state (h : HostCfg) : HostState := { unhealthy := h.unhealthy, conns := h.conns, fails := h.fails }
+
+/-- when attempt number `attempt` (0-based, over all backends) starts, backend `host` is put in `state` -/
+structure Event where
+  attempt : Nat
+  host : Nat
+  state : HostState
 deriving Repr, DecidableEq
 
 structure Cfg where
@@ -51,6 +82,8 @@ structure Cfg where
   hosts : List HostCfg
   /-- the request has a body (`outreq.Body != nil`) -/
   hasBody : Bool
+  /-- state changes of backends while the request is served -/
+  events : List Event
 
 /-- what an attempt read of the request body: there is none, all of it, nothing although there is
 one, or the attempt failed before reading (`unread`) -/
@@ -82,17 +115,33 @@ structure St where
   bodyUnread : Bool
   /-- number of `Select` calls so far -/
   selects : Nat
+  /-- number of attempts started so far -/
+  attempts : Nat
+  /-- the state the events so far have given host i; `none` = still as on arrival -/
+  over : Nat → Option HostState
 
-def St.init : St := { now := 0, robin := 0, timers := fun _ => [], calls := fun _ => 0, bodyUnread := true, selects := 0 }
+def St.init : St :=
+  { now := 0, robin := 0, timers := fun _ => [], calls := fun _ => 0, bodyUnread := true, selects := 0,
+    attempts := 0, over := fun _ => none }
 
 /-- `atomic.LoadInt32(&uh.Fails)` at time `now` -/
 def failsAt (st : St) (i : Nat) : Nat := ((st.timers i).filter (fun e => decide (e > st.now))).length
 
+/-- the events of attempt number `n`, in the order written (a later one wins) -/
+def applyEvents (evs : List Event) (n : Nat) (over : Nat → Option HostState) : Nat → Option HostState :=
+  evs.foldl (fun ov e => if e.attempt = n then (fun j => if j = e.host then some e.state else ov j) else ov) over
+
+/-- the state of host i apart from this request's own failures -/
+def hostState (c : Cfg) (over : Nat → Option HostState) (i : Nat) : Option HostState :=
+  match c.hosts[i]? with
+  | some h => some ((over i).getD h.state)
+  | none => none
+
 /-- the pool as `Select` sees it at the current time -/
 def poolAt (c : Cfg) (st : St) : Pool :=
   (List.range c.hosts.length).map fun i =>
-    match c.hosts[i]? with
-    | some h => { down := h.unhealthy || decide (failsAt st i ≥ c.maxFails), conns := h.conns, maxConns := c.maxConns }
+    match hostState c st.over i with
+    | some s => { down := s.unhealthy || decide (s.fails + failsAt st i ≥ c.maxFails), conns := s.conns, maxConns := c.maxConns }
     | none => { down := true, conns := 0, maxConns := 0 }
 
 def outcomeAt (script : List Outcome) (n : Nat) : Outcome :=
@@ -139,7 +188,9 @@ def step (c : Cfg) (st : St) (acc : List Attempt) : Step :=
     let o := outcomeOf c st i
     let acc := { host := i, body := bodySeen c st o } :: acc
     let st := { st with calls := fun j => if j = i then st.calls j + 1 else st.calls j,
-                        bodyUnread := st.bodyUnread && !readsBody o }
+                        bodyUnread := st.bodyUnread && !readsBody o,
+                        attempts := st.attempts + 1,
+                        over := applyEvents c.events st.attempts st.over }
     match o with
     | .ok => .done .success acc
     | .tooLarge => .done .tooLarge acc
